@@ -41,6 +41,8 @@ func main() {
 		os.Exit(cmdCheck(os.Args[2], os.Args[3]))
 	case "run":
 		os.Exit(cmdRun(os.Args[2:]))
+	case "replay":
+		os.Exit(cmdReplay(os.Args[2], os.Args[3]))
 	case "list":
 		for _, c := range checks {
 			fmt.Println(c.Property, len(c.Harnesses))
@@ -157,6 +159,12 @@ func replayNative(dir string, scripts []script, work string) ([]nativeResult, st
 	rd := dir
 	if dir == "root" {
 		rd = "."
+	}
+	// the package's own tests are hidden for the replay build (several need a live MongoDB in init)
+	if own, _ := filepath.Glob(filepath.Join(repo, rd, "*_test.go")); own != nil {
+		for _, f := range own {
+			native[f] = ""
+		}
 	}
 	native[filepath.Join(repo, rd, "zz_verif_replay_test.go")] = testFile
 	ovJSON, _ := json.Marshal(map[string]interface{}{"Replace": native})
@@ -282,6 +290,46 @@ func cmdRun(args []string) int {
 		return 2
 	}
 	return 0
+}
+
+// cmdReplay re-runs stored counterexample scripts natively; exit 1 if any still fails.
+func cmdReplay(prop, file string) int {
+	data, err := os.ReadFile(file)
+	if err != nil {
+		fmt.Fprintln(os.Stderr, err)
+		return 2
+	}
+	var scripts []script
+	if err := json.Unmarshal(data, &scripts); err != nil {
+		fmt.Fprintln(os.Stderr, err)
+		return 2
+	}
+	rc := 0
+	for _, s := range scripts {
+		dir := ""
+		for _, c := range checks {
+			for _, h := range c.Harnesses {
+				if h.Func == s.Harness {
+					dir = h.Dir
+				}
+			}
+		}
+		if dir == "" {
+			fmt.Println("unknown harness", s.Harness)
+			return 2
+		}
+		nr, out, err := replayNative(dir, []script{s}, filepath.Join(verifDir, ".work", "replay"))
+		if err != nil || len(nr) == 0 || nr[0].Kind == "missing" {
+			fmt.Println("replay did not run:", err, trunc(out, 2000))
+			return 2
+		}
+		fmt.Printf("%s: %s %s\n", s.Harness, nr[0].Kind, nr[0].Msg)
+		if nr[0].Kind == "assert" || nr[0].Kind == "panic" {
+			fmt.Printf("VIOLATION property=%s replay=%s\n", prop, file)
+			rc = 1
+		}
+	}
+	return rc
 }
 
 func trunc(s string, n int) string {
